@@ -397,6 +397,15 @@ class Ctx:
                 errtxt = errf.read(200000).decode("latin-1", "replace")
                 reason = "%s %s" % (crash_tag, summarize_crash(errtxt, p.returncode))
             errf.close()
+            if reason == "HANG timeout" and crash_tag == "MODEL-CRASH" and not getattr(self, "_in_retry", False):
+                # the extracted model was too slow for this case (a loaded machine, a quadratic corner): once more, alone and
+                # patiently, before its silence is reported as a disagreement
+                self._in_retry = True
+                try:
+                    again = self.run_lines(cmd, [chunk[n]], timeout_per_case=min(900.0, timeout_per_case * 6), env=env, crash_tag=crash_tag, max_line=max_line)
+                finally:
+                    self._in_retry = False
+                reason = again[0] if again and again[0] is not None else reason
             results[start + n] = reason
             start = start + n + 1
             if reason.startswith("HANG"):
